@@ -1,68 +1,11 @@
 import DAVerif.Sql.WithFormG
 /-
-Lemmas about the WITH form (`Sql/WithForm.lean`, generalised in `Sql/WithFormG.lean`) for property C04:
-structure of the emitted sequence (names, cache growth), and the simulation argument
-`semWith (toWithFormG key cache q) = semSql q`.
+Lemmas for property C04 shared by the two stubs of `Sql/WithFormG.lean` (list helpers, congruence / strictness / errors
+of `semNear`, `runSteps`), and the structure of the WITH form of the stub BEFORE fix N28 (`toWithFormOld`: names, cache
+growth).  The code as it is (`toWithFormG`) is treated in Proofs/WithFix.lean.
 -/
 namespace DAVerif.Sql
 open DAVerif
-
-theorem toWithFormG_cacheKey (near : Near) :
-    (∀ cache, toWithForm cache near = toWithFormG cacheKey cache near) ∧
-    (∀ cache cols force, withStub cache near cols force = stubStep cacheKey near cols force (toWithFormG cacheKey cache near)) := by
-  induction near with
-  | table n ts =>
-    refine ⟨fun cache => by simp only [toWithForm, toWithFormG], fun cache cols force => ?_⟩
-    rw [withStub]; simp [stubStep, Near.isTable, toWithFormG]
-  | cte n =>
-    refine ⟨fun cache => by simp only [toWithForm, toWithFormG], fun cache cols force => ?_⟩
-    rw [withStub]; simp [stubStep, Near.isTable, toWithFormG]
-  | unary name terms agg sub sc sf mg deps k ih =>
-    have h1 : ∀ cache, toWithForm cache (.unary name terms agg sub sc sf mg deps k)
-        = toWithFormG cacheKey cache (.unary name terms agg sub sc sf mg deps k) := by
-      intro cache
-      rw [toWithForm, toWithFormG]
-      split
-      · rfl
-      · rw [ih.2]
-    refine ⟨h1, fun cache cols force => ?_⟩
-    rw [withStub, h1]
-    simp only [stubStep]
-    split
-    · rename_i h; simp [Near.isTable] at h
-    · rfl
-  | join name terms l lc ln r rc rn jt oa ob k ihl ihr =>
-    have h1 : ∀ cache, toWithForm cache (.join name terms l lc ln r rc rn jt oa ob k)
-        = toWithFormG cacheKey cache (.join name terms l lc ln r rc rn jt oa ob k) := by
-      intro cache
-      rw [toWithForm, toWithFormG]
-      split
-      · rfl
-      · rw [ihl.2]
-        simp only
-        rw [ihr.2]
-    refine ⟨h1, fun cache cols force => ?_⟩
-    rw [withStub, h1]
-    simp only [stubStep]
-    split
-    · rename_i h; simp [Near.isTable] at h
-    · rfl
-  | union name terms l r cs k ihl ihr =>
-    have h1 : ∀ cache, toWithForm cache (.union name terms l r cs k)
-        = toWithFormG cacheKey cache (.union name terms l r cs k) := by
-      intro cache
-      rw [toWithForm, toWithFormG]
-      split
-      · rfl
-      · rw [ihl.2]
-        simp only
-        rw [ihr.2]
-    refine ⟨h1, fun cache cols force => ?_⟩
-    rw [withStub, h1]
-    simp only [stubStep]
-    split
-    · rename_i h; simp [Near.isTable] at h
-    · rfl
 
 /-! ### list helpers -/
 def stepNames (s : List WithStep) : List String := s.map (·.name)
@@ -134,51 +77,51 @@ theorem Near.names_of_isTable {n : Near} (h : n.isTable = true) : n.names = [] :
 theorem Near.names_of_not_isTable {n : Near} (h : ¬ n.isTable = true) : n.names = n.name :: n.names.tail := by
   cases n <;> simp_all [Near.isTable, Near.names, Near.name]
 
-theorem stubStep_isTable (key : KeyFn) {near : Near} (cols : Option (List String)) (force : Bool)
-    (r : Near × List WithStep × Option Cache) (h : near.isTable = true) : stubStep key near cols force r = r := by
-  simp [stubStep, h]
+theorem stubStepOld_isTable (key : KeyFn) {near : Near} (cols : Option (List String)) (force : Bool)
+    (r : Near × List WithStep × Option Cache) (h : near.isTable = true) : stubStepOld key near cols force r = r := by
+  simp [stubStepOld, h]
 
-theorem toWithFormG_isTable (key : KeyFn) (cache : Option Cache) {near : Near} (h : near.isTable = true) :
-    toWithFormG key cache near = (near, [], cache) := by
-  cases near <;> simp_all [Near.isTable, toWithFormG]
+theorem toWithFormOld_isTable (key : KeyFn) (cache : Option Cache) {near : Near} (h : near.isTable = true) :
+    toWithFormOld key cache near = (near, [], cache) := by
+  cases near <;> simp_all [Near.isTable, toWithFormOld]
 
-theorem toWithFormG_name (key : KeyFn) (cache : Option Cache) (near : Near) :
-    (toWithFormG key cache near).1.name = near.name := by
-  cases near <;> simp only [toWithFormG] <;> (try split) <;> rfl
+theorem toWithFormOld_name (key : KeyFn) (cache : Option Cache) (near : Near) :
+    (toWithFormOld key cache near).1.name = near.name := by
+  cases near <;> simp only [toWithFormOld] <;> (try split) <;> rfl
 
-theorem stubStep_hit (key : KeyFn) {near : Near} (cols : Option (List String)) (force : Bool)
+theorem stubStepOld_hit (key : KeyFn) {near : Near} (cols : Option (List String)) (force : Bool)
     (r : Near × List WithStep × Option Cache) (ht : ¬ near.isTable = true) {nm : String}
     (h : (r.2.2.bind fun c => lookupLast c (key near cols)) = some nm) :
-    stubStep key near cols force r = (.cte nm, [], r.2.2) := by
-  simp only [stubStep, if_neg ht, h]
+    stubStepOld key near cols force r = (.cte nm, [], r.2.2) := by
+  simp only [stubStepOld, if_neg ht, h]
 
-theorem stubStep_miss (key : KeyFn) {near : Near} (cols : Option (List String)) (force : Bool)
+theorem stubStepOld_miss (key : KeyFn) {near : Near} (cols : Option (List String)) (force : Bool)
     (r : Near × List WithStep × Option Cache) (ht : ¬ near.isTable = true)
     (h : (r.2.2.bind fun c => lookupLast c (key near cols)) = none) :
-    stubStep key near cols force r = (.cte r.1.name,
+    stubStepOld key near cols force r = (.cte r.1.name,
        if r.2.1.any (fun st => st.name == r.1.name) then r.2.1 else r.2.1 ++ [⟨r.1.name, r.1, cols, force⟩],
        r.2.2.map (fun c => c ++ [(key near cols, r.1.name)])) := by
-  simp only [stubStep, if_neg ht, h]
+  simp only [stubStepOld, if_neg ht, h]
 
 /-- the sequence a container contributes: names are those of the sub-tree, without repetition -/
-theorem stubStep_names (key : KeyFn) (near : Near) (cols : Option (List String)) (force : Bool) (cache : Option Cache)
+theorem stubStepOld_names (key : KeyFn) (near : Near) (cols : Option (List String)) (force : Bool) (cache : Option Cache)
     (hnd : near.names.Nodup)
-    (ih : (stepNames (toWithFormG key cache near).2.1).Nodup ∧
-          ∀ n ∈ stepNames (toWithFormG key cache near).2.1, n ∈ near.names.tail) :
-    (stepNames (stubStep key near cols force (toWithFormG key cache near)).2.1).Nodup ∧
-      ∀ n ∈ stepNames (stubStep key near cols force (toWithFormG key cache near)).2.1, n ∈ near.names := by
+    (ih : (stepNames (toWithFormOld key cache near).2.1).Nodup ∧
+          ∀ n ∈ stepNames (toWithFormOld key cache near).2.1, n ∈ near.names.tail) :
+    (stepNames (stubStepOld key near cols force (toWithFormOld key cache near)).2.1).Nodup ∧
+      ∀ n ∈ stepNames (stubStepOld key near cols force (toWithFormOld key cache near)).2.1, n ∈ near.names := by
   by_cases ht : near.isTable = true
-  · rw [stubStep_isTable key cols force _ ht, toWithFormG_isTable key cache ht]
+  · rw [stubStepOld_isTable key cols force _ ht, toWithFormOld_isTable key cache ht]
     simp [stepNames]
   · have hn := Near.names_of_not_isTable ht
     have hnotin : near.name ∉ near.names.tail := by
       rw [hn] at hnd; exact (List.nodup_cons.mp hnd).1
-    cases hl : ((toWithFormG key cache near).2.2.bind fun c => lookupLast c (key near cols)) with
-    | some nm => rw [stubStep_hit key cols force _ ht hl]; simp [stepNames]
+    cases hl : ((toWithFormOld key cache near).2.2.bind fun c => lookupLast c (key near cols)) with
+    | some nm => rw [stubStepOld_hit key cols force _ ht hl]; simp [stepNames]
     | none =>
-      rw [stubStep_miss key cols force _ ht hl]
-      simp only [toWithFormG_name]
-      have hany : ((toWithFormG key cache near).2.1.any fun st => st.name == near.name) = false := by
+      rw [stubStepOld_miss key cols force _ ht hl]
+      simp only [toWithFormOld_name]
+      have hany : ((toWithFormOld key cache near).2.1.any fun st => st.name == near.name) = false := by
         rw [Bool.eq_false_iff]
         intro h
         rw [List.any_eq_true] at h
@@ -225,30 +168,30 @@ theorem pair_names (ln rn : List String) (s1 s2 : List WithStep) (hnd : (ln ++ r
     | inl h => exact Or.inl (h1.2 n h)
     | inr h => exact Or.inr (h2.2 n h)
 
-theorem toWithFormG_names (key : KeyFn) (near : Near) : near.names.Nodup → ∀ cache,
-    (stepNames (toWithFormG key cache near).2.1).Nodup ∧
-      ∀ n ∈ stepNames (toWithFormG key cache near).2.1, n ∈ near.names.tail := by
+theorem toWithFormOld_names (key : KeyFn) (near : Near) : near.names.Nodup → ∀ cache,
+    (stepNames (toWithFormOld key cache near).2.1).Nodup ∧
+      ∀ n ∈ stepNames (toWithFormOld key cache near).2.1, n ∈ near.names.tail := by
   induction near with
-  | table n ts => intro _ cache; simp [toWithFormG, stepNames]
-  | cte n => intro _ cache; simp [toWithFormG, stepNames]
+  | table n ts => intro _ cache; simp [toWithFormOld, stepNames]
+  | cte n => intro _ cache; simp [toWithFormOld, stepNames]
   | unary name terms agg sub sc sf mg deps k ih =>
     intro hnd cache
     simp only [Near.names, List.nodup_cons] at hnd
-    simp only [toWithFormG]
+    simp only [toWithFormOld]
     split
     · simp [stepNames]
-    · simpa [Near.names] using stubStep_names key sub sc false cache hnd.2 (ih hnd.2 cache)
+    · simpa [Near.names] using stubStepOld_names key sub sc false cache hnd.2 (ih hnd.2 cache)
   | join name terms l lc ln r rc rn jt oa ob k ihl ihr =>
     intro hnd cache
     simp only [Near.names, List.nodup_cons] at hnd
     have hl := (List.nodup_append.mp hnd.2).1
     have hr := (List.nodup_append.mp hnd.2).2.1
-    simp only [toWithFormG]
+    simp only [toWithFormOld]
     split
     · simp [stepNames]
-    · have h1 := stubStep_names key l (some lc) false cache hl (ihl hl cache)
-      have h2 := stubStep_names key r (some rc) false
-        (stubStep key l (some lc) false (toWithFormG key cache l)).2.2 hr (ihr hr _)
+    · have h1 := stubStepOld_names key l (some lc) false cache hl (ihl hl cache)
+      have h2 := stubStepOld_names key r (some rc) false
+        (stubStepOld key l (some lc) false (toWithFormOld key cache l)).2.2 hr (ihr hr _)
       have := pair_names _ _ _ _ hnd.2 h1 h2
       simp only [Near.names, List.tail_cons]
       rw [this.1]
@@ -258,12 +201,12 @@ theorem toWithFormG_names (key : KeyFn) (near : Near) : near.names.Nodup → ∀
     simp only [Near.names, List.nodup_cons] at hnd
     have hl := (List.nodup_append.mp hnd.2).1
     have hr := (List.nodup_append.mp hnd.2).2.1
-    simp only [toWithFormG]
+    simp only [toWithFormOld]
     split
     · simp [stepNames]
-    · have h1 := stubStep_names key l (some cs) true cache hl (ihl hl cache)
-      have h2 := stubStep_names key r (some cs) true
-        (stubStep key l (some cs) true (toWithFormG key cache l)).2.2 hr (ihr hr _)
+    · have h1 := stubStepOld_names key l (some cs) true cache hl (ihl hl cache)
+      have h2 := stubStepOld_names key r (some cs) true
+        (stubStepOld key l (some cs) true (toWithFormOld key cache l)).2.2 hr (ihr hr _)
       have := pair_names _ _ _ _ hnd.2 h1 h2
       simp only [Near.names, List.tail_cons]
       rw [this.1]
@@ -271,49 +214,49 @@ theorem toWithFormG_names (key : KeyFn) (near : Near) : near.names.Nodup → ∀
 
 /-! ### normal forms: the `is_table` shortcuts of `to_with_form` do not change the outcome -/
 
-theorem toWithFormG_join (key : KeyFn) (cache : Option Cache) (name : String) (terms : Terms) (l : Near) (lc : List String)
+theorem toWithFormOld_join (key : KeyFn) (cache : Option Cache) (name : String) (terms : Terms) (l : Near) (lc : List String)
     (ln : String) (r : Near) (rc : List String) (rn : String) (jt : JoinType) (oa ob : List String) (k : Option String) :
-    toWithFormG key cache (.join name terms l lc ln r rc rn jt oa ob k) =
-      (.join name terms (stubStep key l (some lc) false (toWithFormG key cache l)).1 lc ln
-          (stubStep key r (some rc) false (toWithFormG key (stubStep key l (some lc) false (toWithFormG key cache l)).2.2 r)).1
+    toWithFormOld key cache (.join name terms l lc ln r rc rn jt oa ob k) =
+      (.join name terms (stubStepOld key l (some lc) false (toWithFormOld key cache l)).1 lc ln
+          (stubStepOld key r (some rc) false (toWithFormOld key (stubStepOld key l (some lc) false (toWithFormOld key cache l)).2.2 r)).1
           rc rn jt oa ob k,
-        appendUnseen (stubStep key l (some lc) false (toWithFormG key cache l)).2.1
-          (stubStep key r (some rc) false (toWithFormG key (stubStep key l (some lc) false (toWithFormG key cache l)).2.2 r)).2.1,
-        (stubStep key r (some rc) false (toWithFormG key (stubStep key l (some lc) false (toWithFormG key cache l)).2.2 r)).2.2) := by
-  simp only [toWithFormG]
+        appendUnseen (stubStepOld key l (some lc) false (toWithFormOld key cache l)).2.1
+          (stubStepOld key r (some rc) false (toWithFormOld key (stubStepOld key l (some lc) false (toWithFormOld key cache l)).2.2 r)).2.1,
+        (stubStepOld key r (some rc) false (toWithFormOld key (stubStepOld key l (some lc) false (toWithFormOld key cache l)).2.2 r)).2.2) := by
+  simp only [toWithFormOld]
   split
   · rename_i h
     simp only [Bool.and_eq_true] at h
-    simp only [stubStep_isTable key _ _ _ h.1, stubStep_isTable key _ _ _ h.2, toWithFormG_isTable key _ h.1,
-      toWithFormG_isTable key _ h.2, appendUnseen, List.foldl_nil]
+    simp only [stubStepOld_isTable key _ _ _ h.1, stubStepOld_isTable key _ _ _ h.2, toWithFormOld_isTable key _ h.1,
+      toWithFormOld_isTable key _ h.2, appendUnseen, List.foldl_nil]
   · rfl
 
-theorem toWithFormG_union (key : KeyFn) (cache : Option Cache) (name : String) (terms : List String) (l r : Near)
+theorem toWithFormOld_union (key : KeyFn) (cache : Option Cache) (name : String) (terms : List String) (l r : Near)
     (cs : List String) (k : Option String) :
-    toWithFormG key cache (.union name terms l r cs k) =
-      (.union name terms (stubStep key l (some cs) true (toWithFormG key cache l)).1
-          (stubStep key r (some cs) true (toWithFormG key (stubStep key l (some cs) true (toWithFormG key cache l)).2.2 r)).1 cs k,
-        appendUnseen (stubStep key l (some cs) true (toWithFormG key cache l)).2.1
-          (stubStep key r (some cs) true (toWithFormG key (stubStep key l (some cs) true (toWithFormG key cache l)).2.2 r)).2.1,
-        (stubStep key r (some cs) true (toWithFormG key (stubStep key l (some cs) true (toWithFormG key cache l)).2.2 r)).2.2) := by
-  simp only [toWithFormG]
+    toWithFormOld key cache (.union name terms l r cs k) =
+      (.union name terms (stubStepOld key l (some cs) true (toWithFormOld key cache l)).1
+          (stubStepOld key r (some cs) true (toWithFormOld key (stubStepOld key l (some cs) true (toWithFormOld key cache l)).2.2 r)).1 cs k,
+        appendUnseen (stubStepOld key l (some cs) true (toWithFormOld key cache l)).2.1
+          (stubStepOld key r (some cs) true (toWithFormOld key (stubStepOld key l (some cs) true (toWithFormOld key cache l)).2.2 r)).2.1,
+        (stubStepOld key r (some cs) true (toWithFormOld key (stubStepOld key l (some cs) true (toWithFormOld key cache l)).2.2 r)).2.2) := by
+  simp only [toWithFormOld]
   split
   · rename_i h
     simp only [Bool.and_eq_true] at h
-    simp only [stubStep_isTable key _ _ _ h.1, stubStep_isTable key _ _ _ h.2, toWithFormG_isTable key _ h.1,
-      toWithFormG_isTable key _ h.2, appendUnseen, List.foldl_nil]
+    simp only [stubStepOld_isTable key _ _ _ h.1, stubStepOld_isTable key _ _ _ h.2, toWithFormOld_isTable key _ h.1,
+      toWithFormOld_isTable key _ h.2, appendUnseen, List.foldl_nil]
   · rfl
 
-theorem toWithFormG_unary (key : KeyFn) (cache : Option Cache) (name : String) (terms : Option Terms) (agg : Bool) (sub : Near)
+theorem toWithFormOld_unary (key : KeyFn) (cache : Option Cache) (name : String) (terms : Option Terms) (agg : Bool) (sub : Near)
     (sc : Option (List String)) (sf : Suffix) (mg : Bool) (deps : Option (List (String × List String))) (k : Option String) :
-    ∃ mg' deps', toWithFormG key cache (.unary name terms agg sub sc sf mg deps k) =
-      (.unary name terms agg (stubStep key sub sc false (toWithFormG key cache sub)).1 sc sf mg' deps' k,
-        (stubStep key sub sc false (toWithFormG key cache sub)).2.1,
-        (stubStep key sub sc false (toWithFormG key cache sub)).2.2) := by
-  simp only [toWithFormG]
+    ∃ mg' deps', toWithFormOld key cache (.unary name terms agg sub sc sf mg deps k) =
+      (.unary name terms agg (stubStepOld key sub sc false (toWithFormOld key cache sub)).1 sc sf mg' deps' k,
+        (stubStepOld key sub sc false (toWithFormOld key cache sub)).2.1,
+        (stubStepOld key sub sc false (toWithFormOld key cache sub)).2.2) := by
+  simp only [toWithFormOld]
   split
   · rename_i h
-    exact ⟨mg, deps, by simp only [stubStep_isTable key _ _ _ h, toWithFormG_isTable key _ h]⟩
+    exact ⟨mg, deps, by simp only [stubStepOld_isTable key _ _ _ h, toWithFormOld_isTable key _ h]⟩
   · exact ⟨false, none, rfl⟩
 
 /-! ### structure: the cache only grows, by keys of the sub-tree; afterwards every key of the sub-tree is present;
@@ -384,17 +327,17 @@ theorem CacheGrow.append {key : KeyFn} {d1 d2 : List Bound} {c c1 : Cache} {res 
     subst hm2
     rfl
 
-theorem stubStep_cache (key : KeyFn) (near : Near) (cols : Option (List String)) (force : Bool) (c : Cache)
-    (ih : CacheGrow key near.desc c (toWithFormG key (some c) near).2.2) :
-    CacheGrow key (bdesc near cols force) c (stubStep key near cols force (toWithFormG key (some c) near)).2.2 := by
+theorem stubStepOld_cache (key : KeyFn) (near : Near) (cols : Option (List String)) (force : Bool) (c : Cache)
+    (ih : CacheGrow key near.desc c (toWithFormOld key (some c) near).2.2) :
+    CacheGrow key (bdesc near cols force) c (stubStepOld key near cols force (toWithFormOld key (some c) near)).2.2 := by
   by_cases ht : near.isTable = true
-  · rw [stubStep_isTable key cols force _ ht, toWithFormG_isTable key _ ht, bdesc_of_isTable _ _ ht]
+  · rw [stubStepOld_isTable key cols force _ ht, toWithFormOld_isTable key _ ht, bdesc_of_isTable _ _ ht]
     exact CacheGrow.nil key c
   · obtain ⟨m1, e1, a1, b1, n1⟩ := ih
     rw [bdesc_of_not_isTable _ _ ht]
-    cases hl : ((toWithFormG key (some c) near).2.2.bind fun c => lookupLast c (key near cols)) with
+    cases hl : ((toWithFormOld key (some c) near).2.2.bind fun c => lookupLast c (key near cols)) with
     | some nm =>
-      rw [stubStep_hit key cols force _ ht hl]
+      rw [stubStepOld_hit key cols force _ ht hl]
       rw [e1] at hl
       simp only [Option.bind_some] at hl
       have hmem := lookupLast_some_mem _ _ _ hl
@@ -408,11 +351,11 @@ theorem stubStep_cache (key : KeyFn) (near : Near) (cols : Option (List String))
       · intro hall
         exact n1 (fun k hk => hall k (by simp only [List.map_cons, List.mem_cons]; exact Or.inr hk))
     | none =>
-      rw [stubStep_miss key cols force _ ht hl]
+      rw [stubStepOld_miss key cols force _ ht hl]
       rw [e1] at hl
       simp only [Option.bind_some] at hl
       simp only [e1, Option.map_some]
-      refine ⟨m1 ++ [(key near cols, (toWithFormG key (some c) near).1.name)], by rw [List.append_assoc], ?_, ?_, ?_⟩
+      refine ⟨m1 ++ [(key near cols, (toWithFormOld key (some c) near).1.name)], by rw [List.append_assoc], ?_, ?_, ?_⟩
       · intro e he
         simp only [List.mem_append, List.mem_singleton] at he
         simp only [List.map_cons, List.mem_cons]
@@ -438,52 +381,52 @@ theorem stubStep_cache (key : KeyFn) (near : Near) (cols : Option (List String))
         apply hl
         simpa using hall (key near cols) (by simp [bkey])
 
-theorem toWithFormG_cache (key : KeyFn) (near : Near) : ∀ c : Cache,
-    CacheGrow key near.desc c (toWithFormG key (some c) near).2.2 := by
+theorem toWithFormOld_cache (key : KeyFn) (near : Near) : ∀ c : Cache,
+    CacheGrow key near.desc c (toWithFormOld key (some c) near).2.2 := by
   induction near with
-  | table n ts => intro c; simpa [toWithFormG, Near.desc] using CacheGrow.nil key c
-  | cte n => intro c; simpa [toWithFormG, Near.desc] using CacheGrow.nil key c
+  | table n ts => intro c; simpa [toWithFormOld, Near.desc] using CacheGrow.nil key c
+  | cte n => intro c; simpa [toWithFormOld, Near.desc] using CacheGrow.nil key c
   | unary name terms agg sub sc sf mg deps k ih =>
     intro c
-    obtain ⟨mg', deps', he⟩ := toWithFormG_unary key (some c) name terms agg sub sc sf mg deps k
+    obtain ⟨mg', deps', he⟩ := toWithFormOld_unary key (some c) name terms agg sub sc sf mg deps k
     rw [he, desc_unary]
-    exact stubStep_cache key sub sc false c (ih c)
+    exact stubStepOld_cache key sub sc false c (ih c)
   | join name terms l lc ln r rc rn jt oa ob k ihl ihr =>
     intro c
-    rw [toWithFormG_join, desc_join]
-    have h1 := stubStep_cache key l (some lc) false c (ihl c)
+    rw [toWithFormOld_join, desc_join]
+    have h1 := stubStepOld_cache key l (some lc) false c (ihl c)
     obtain ⟨m1, e1, -⟩ := id h1
     rw [e1] at h1 ⊢
-    exact CacheGrow.append h1 (stubStep_cache key r (some rc) false _ (ihr _))
+    exact CacheGrow.append h1 (stubStepOld_cache key r (some rc) false _ (ihr _))
   | union name terms l r cs k ihl ihr =>
     intro c
-    rw [toWithFormG_union, desc_union]
-    have h1 := stubStep_cache key l (some cs) true c (ihl c)
+    rw [toWithFormOld_union, desc_union]
+    have h1 := stubStepOld_cache key l (some cs) true c (ihl c)
     obtain ⟨m1, e1, -⟩ := id h1
     rw [e1] at h1 ⊢
-    exact CacheGrow.append h1 (stubStep_cache key r (some cs) true _ (ihr _))
+    exact CacheGrow.append h1 (stubStepOld_cache key r (some cs) true _ (ihr _))
 
-theorem toWithFormG_cache_none (key : KeyFn) (near : Near) : (toWithFormG key none near).2.2 = none := by
+theorem toWithFormOld_cache_none (key : KeyFn) (near : Near) : (toWithFormOld key none near).2.2 = none := by
   induction near with
   | table n ts => rfl
   | cte n => rfl
   | unary name terms agg sub sc sf mg deps k ih =>
-    obtain ⟨mg', deps', he⟩ := toWithFormG_unary key none name terms agg sub sc sf mg deps k
+    obtain ⟨mg', deps', he⟩ := toWithFormOld_unary key none name terms agg sub sc sf mg deps k
     rw [he]
-    simp only [stubStep, ih, Option.bind_none, Option.map_none]
+    simp only [stubStepOld, ih, Option.bind_none, Option.map_none]
     split <;> simp [ih]
   | join name terms l lc ln r rc rn jt oa ob k ihl ihr =>
-    rw [toWithFormG_join]
-    have h1 : (stubStep key l (some lc) false (toWithFormG key none l)).2.2 = none := by
-      simp only [stubStep, ihl, Option.bind_none, Option.map_none]; split <;> simp [ihl]
+    rw [toWithFormOld_join]
+    have h1 : (stubStepOld key l (some lc) false (toWithFormOld key none l)).2.2 = none := by
+      simp only [stubStepOld, ihl, Option.bind_none, Option.map_none]; split <;> simp [ihl]
     rw [h1]
-    simp only [stubStep, ihr, Option.bind_none, Option.map_none]; split <;> simp [ihr]
+    simp only [stubStepOld, ihr, Option.bind_none, Option.map_none]; split <;> simp [ihr]
   | union name terms l r cs k ihl ihr =>
-    rw [toWithFormG_union]
-    have h1 : (stubStep key l (some cs) true (toWithFormG key none l)).2.2 = none := by
-      simp only [stubStep, ihl, Option.bind_none, Option.map_none]; split <;> simp [ihl]
+    rw [toWithFormOld_union]
+    have h1 : (stubStepOld key l (some cs) true (toWithFormOld key none l)).2.2 = none := by
+      simp only [stubStepOld, ihl, Option.bind_none, Option.map_none]; split <;> simp [ihl]
     rw [h1]
-    simp only [stubStep, ihr, Option.bind_none, Option.map_none]; split <;> simp [ihr]
+    simp only [stubStepOld, ihr, Option.bind_none, Option.map_none]; split <;> simp [ihr]
 
 /-! ### semantics: congruence, strictness, errors -/
 
